@@ -2243,6 +2243,9 @@ class Process:
             if value < 0 or value > 7:
                 msg = "value not in 0-7 range"
                 raise ValueError(msg)
+            if not 0 <= ioclass <= 3:
+                msg = f"invalid ioclass {ioclass!r}; use one of IOPRIO_CLASS_*"
+                raise ValueError(msg)
             return cext.proc_ioprio_set(self.pid, ioclass, value)
 
     if hasattr(resource, "prlimit"):
